@@ -1286,8 +1286,11 @@ pub fn run_enum(args: &Args, rep: &mut Report) {
     for (k, mut rng) in case_iter(args, 0xE9C3, 6) {
         // small scenarios: 2..3 threads, one or two operations each
         let nthreads = if rng.chance(args.u64("p3", 1), 8) { 3 } else { 2 };
-        let scenario = *rng.pick(&["identical-puts", "identical-puts", "nested-puts", "put-vs-get", "evict-race", "evict-two-race", "evict-two-race"]);
+        // scenarios are dealt round-robin over (worker, case) so that every one is enumerated in every run
+        const SCENARIOS: [&str; 6] = ["identical-puts", "damaged-get-vs-put", "evict-two-race", "nested-puts", "put-vs-get", "evict-race"];
+        let scenario = SCENARIOS[(k as usize + args.u64("worker", 0) as usize) % SCENARIOS.len()];
         let nchunks = rng.urange(3, 6);
+        let damage_bit = rng.next_u64();
         let t = TruthKey::gen(&mut rng, nchunks, 40);
         let t2 = TruthKey::gen(&mut rng, 3, 40);
         let t3 = TruthKey::gen(&mut rng, 4, 60);
@@ -1309,6 +1312,15 @@ pub fn run_enum(args: &Args, rep: &mut Report) {
                         vec![COp::Put(0, a, b)]
                     } else {
                         vec![COp::Put(0, a, b), COp::Get(0, a, b)]
+                    }
+                },
+                "damaged-get-vs-put" => {
+                    // the whole key is cached, its file is bit-damaged while the cache is closed and the cache re-opened
+                    // (entry not yet verified); a get of the whole range races with a put of a covered sub-range
+                    if ti == 1 {
+                        vec![COp::Put(0, a, b), COp::Get(0, a, b)]
+                    } else {
+                        vec![COp::Get(0, 0, t.n())]
                     }
                 },
                 "evict-two-race" => {
@@ -1345,7 +1357,24 @@ pub fn run_enum(args: &Args, rep: &mut Report) {
             n_sched += 1;
             let dir = tempfile::tempdir().unwrap();
             let root = dir.path().to_path_buf();
-            let Ok(cache) = DiskCache::initialize(&cfg(&root, cap)) else { break };
+            let Ok(mut cache) = DiskCache::initialize(&cfg(&root, cap)) else { break };
+            if scenario == "damaged-get-vs-put" {
+                let (o, d) = t.slice(0, t.n());
+                let _ = cache.put(&t.key, &ChunkRange { start: 0, end: t.n() as u32 }, &o, d);
+                drop(cache);
+                if let Some((f, _)) = walk_cache_files(&root).first() {
+                    if let Ok(mut bytes) = std::fs::read(f) {
+                        let hl = (t.n() + 2) * 4;
+                        if bytes.len() > hl {
+                            let bit = (hl * 8) as u64 + damage_bit % ((bytes.len() - hl) as u64 * 8);
+                            bytes[(bit / 8) as usize] ^= 1 << (bit % 8);
+                            let _ = std::fs::write(f, &bytes);
+                        }
+                    }
+                }
+                let Ok(c2) = DiskCache::initialize(&cfg(&root, cap)) else { break };
+                cache = c2;
+            }
             let cache = Arc::new(cache);
             // evict-race: pre-fill so that the puts must evict
             if scenario == "evict-race" {
